@@ -80,6 +80,20 @@ func main() {
 		}
 		return
 	}
+	if *dump == "exported" {
+		abs, _ := filepath.Abs(*repo)
+		ctx, err := lint.Load(abs, "", lint.ModulePath, 11)
+		if err != nil {
+			fmt.Println(err)
+			os.Exit(2)
+		}
+		for _, fn := range ctx.ModFuncs {
+			if fn.Parent() == nil && fn.Object() != nil && fn.Object().Exported() {
+				fmt.Println(ctx.FuncName(fn))
+			}
+		}
+		return
+	}
 	if *dump == "anchors" {
 		abs, _ := filepath.Abs(*repo)
 		ctx, err := lint.Load(abs, "", lint.ModulePath, 11)
